@@ -9,6 +9,12 @@ codec is the CompressionCodec name or number of parquet.thrift:
     is not framed is tried as a raw block and reported through `lz4_was_raw`), ZSTD 6 (libzstd.so.1, frames),
     LZ4_RAW 7 (liblz4.so.1 block API LZ4_compress_default / LZ4_decompress_safe).
 LZO 3 and BROTLI 4 are not available: CodecUnavailable.  Malformed input: CodecError.
+
+Legal-but-unusual framings (property C06: "codecs x legal-but-unusual layouts"): compress(codec, data, variant=name)
+with name from VARIANTS[codec] produces another byte stream that the codec's format equally allows for the same
+content (see the table at VARIANTS).  `variant_chooser`, when set to a callable (codec number, data) -> name | None,
+picks the variant for calls that do not name one (tools/pq.write_file calls compress(codec, body)); every choice is
+appended to `variant_log`.
 """
 import ctypes, zlib, struct
 
@@ -212,13 +218,282 @@ def gzip_decompress(data, size=None):
     return res
 
 
+# ---- legal-but-unusual framings
+
+ZSTD_c_compressionLevel, ZSTD_c_windowLog, ZSTD_c_contentSizeFlag, ZSTD_c_checksumFlag = 100, 101, 200, 201
+ZSTD_e_continue, ZSTD_e_flush, ZSTD_e_end = 0, 1, 2
+
+
+class _ZInBuf(ctypes.Structure):
+    _fields_ = [("src", ctypes.c_void_p), ("size", ctypes.c_size_t), ("pos", ctypes.c_size_t)]
+
+
+class _ZOutBuf(ctypes.Structure):
+    _fields_ = [("dst", ctypes.c_void_p), ("size", ctypes.c_size_t), ("pos", ctypes.c_size_t)]
+
+
+def _zstd():
+    """libzstd with the prototypes of the advanced API."""
+    lib = _lib("libzstd.so.1")
+    if not getattr(lib, "_pq_ready", False):
+        lib.ZSTD_createCCtx.restype = ctypes.c_void_p
+        lib.ZSTD_freeCCtx.argtypes = [ctypes.c_void_p]
+        lib.ZSTD_CCtx_setParameter.restype = ctypes.c_size_t
+        lib.ZSTD_CCtx_setParameter.argtypes = [ctypes.c_void_p, ctypes.c_int, ctypes.c_int]
+        lib.ZSTD_compress2.restype = ctypes.c_size_t
+        lib.ZSTD_compress2.argtypes = [ctypes.c_void_p, ctypes.c_char_p, ctypes.c_size_t, ctypes.c_char_p, ctypes.c_size_t]
+        lib.ZSTD_compressStream2.restype = ctypes.c_size_t
+        lib.ZSTD_compressStream2.argtypes = [ctypes.c_void_p, ctypes.POINTER(_ZOutBuf), ctypes.POINTER(_ZInBuf), ctypes.c_int]
+        lib.ZSTD_compressBound.restype = ctypes.c_size_t
+        lib.ZSTD_compressBound.argtypes = [ctypes.c_size_t]
+        lib.ZSTD_isError.argtypes = [ctypes.c_size_t]
+        lib.ZSTD_getFrameContentSize.restype = ctypes.c_ulonglong
+        lib.ZSTD_getFrameContentSize.argtypes = [ctypes.c_char_p, ctypes.c_size_t]
+        lib.ZSTD_minCLevel.restype = ctypes.c_int
+        lib._pq_ready = True
+    return lib
+
+
+def zstd_frame_content_size(frame):
+    """ZSTD_getFrameContentSize: the declared size, 2^64-1 = unknown (no Frame_Content_Size field), 2^64-2 = error."""
+    return _zstd().ZSTD_getFrameContentSize(bytes(frame), len(frame))
+
+
+def zstd_compress_adv(data, level=3, content_size=True, checksum=False, window_log=None):
+    """One frame via ZSTD_compress2 with explicit frame parameters (content_size=False: the frame header carries no
+    Frame_Content_Size field, as frames of streaming compressors do)."""
+    lib = _zstd()
+    data = bytes(data)
+    cctx = lib.ZSTD_createCCtx()
+    try:
+        for prm, val in ((ZSTD_c_compressionLevel, level), (ZSTD_c_contentSizeFlag, 1 if content_size else 0),
+                         (ZSTD_c_checksumFlag, 1 if checksum else 0)) + (((ZSTD_c_windowLog, window_log),) if window_log else ()):
+            if lib.ZSTD_isError(lib.ZSTD_CCtx_setParameter(cctx, prm, val)):
+                raise CodecError("ZSTD_CCtx_setParameter(%d, %d) failed" % (prm, val))
+        cap = lib.ZSTD_compressBound(len(data))
+        out = ctypes.create_string_buffer(max(cap, 1))
+        n = lib.ZSTD_compress2(cctx, out, cap, data, len(data))
+        if lib.ZSTD_isError(n):
+            raise CodecError("ZSTD_compress2 failed")
+        return out.raw[:n]
+    finally:
+        lib.ZSTD_freeCCtx(cctx)
+
+
+def zstd_compress_stream(data, level=3, chunk=97, flush_every=0, checksum=False):
+    """One frame via ZSTD_compressStream2: the input is fed in `chunk`-byte pieces with ZSTD_e_continue (every
+    `flush_every`-th piece with ZSTD_e_flush: block boundaries), then ZSTD_e_end.  No pledged source size: the frame
+    header has no Frame_Content_Size (what zstd-jni's ZstdOutputStream / parquet-mr, klauspost/compress, `zstd` on a
+    pipe produce)."""
+    lib = _zstd()
+    data = bytes(data)
+    cctx = lib.ZSTD_createCCtx()
+    try:
+        lib.ZSTD_CCtx_setParameter(cctx, ZSTD_c_compressionLevel, level)
+        lib.ZSTD_CCtx_setParameter(cctx, ZSTD_c_checksumFlag, 1 if checksum else 0)
+        cap = lib.ZSTD_compressBound(len(data)) + 64 * (len(data) // max(chunk, 1) + 2)
+        out = ctypes.create_string_buffer(cap)
+        ob = _ZOutBuf(ctypes.cast(out, ctypes.c_void_p), cap, 0)
+        src = ctypes.create_string_buffer(data, max(len(data), 1))
+        pos, k = 0, 0
+        while pos < len(data):
+            n = min(chunk, len(data) - pos)
+            ib = _ZInBuf(ctypes.cast(src, ctypes.c_void_p).value + pos, n, 0)
+            k += 1
+            mode = ZSTD_e_flush if flush_every and k % flush_every == 0 else ZSTD_e_continue
+            while True:
+                r = lib.ZSTD_compressStream2(cctx, ctypes.byref(ob), ctypes.byref(ib), mode)
+                if lib.ZSTD_isError(r):
+                    raise CodecError("ZSTD_compressStream2 failed")
+                if ib.pos == ib.size and (mode == ZSTD_e_continue or r == 0):
+                    break
+            pos += n
+        ib = _ZInBuf(ctypes.cast(src, ctypes.c_void_p).value, 0, 0)
+        while True:
+            r = lib.ZSTD_compressStream2(cctx, ctypes.byref(ob), ctypes.byref(ib), ZSTD_e_end)
+            if lib.ZSTD_isError(r):
+                raise CodecError("ZSTD_compressStream2(e_end) failed")
+            if r == 0:
+                break
+        return out.raw[:ob.pos]
+    finally:
+        lib.ZSTD_freeCCtx(cctx)
+
+
+def zstd_skippable_frame(payload=b"pq"):
+    """A skippable frame (RFC 8878 3.1.2): magic 0x184D2A50..5F, 4-byte size, user data; decoders skip it."""
+    return struct.pack("<II", 0x184D2A53, len(payload)) + bytes(payload)
+
+
+def deflate_raw(data, level=6, strategy=zlib.Z_DEFAULT_STRATEGY, mem_level=8, full_flush_at=None):
+    """Raw DEFLATE stream (RFC 1951).  level 0: stored blocks; Z_FIXED: fixed Huffman blocks; full_flush_at: a
+    Z_FULL_FLUSH after that many input bytes (several blocks and an empty stored block in between)."""
+    c = zlib.compressobj(level, zlib.DEFLATED, -15, mem_level, strategy)
+    data = bytes(data)
+    if full_flush_at is not None and 0 < full_flush_at < len(data):
+        return c.compress(data[:full_flush_at]) + c.flush(zlib.Z_FULL_FLUSH) + c.compress(data[full_flush_at:]) + c.flush()
+    return c.compress(data) + c.flush()
+
+
+def gzip_member(data, level=6, strategy=zlib.Z_DEFAULT_STRATEGY, fname=None, fextra=None, fcomment=None, fhcrc=False,
+                ftext=False, mtime=0, xfl=0, os_id=255, full_flush_at=None):
+    """One gzip member (RFC 1952) assembled by hand: any of the optional header fields FEXTRA / FNAME / FCOMMENT /
+    FHCRC, then a raw DEFLATE stream, CRC32 and ISIZE."""
+    data = bytes(data)
+    flg = (1 if ftext else 0) | (2 if fhcrc else 0) | (4 if fextra is not None else 0) | (8 if fname is not None else 0) | (16 if fcomment is not None else 0)
+    h = bytes([0x1F, 0x8B, 8, flg]) + struct.pack("<I", mtime) + bytes([xfl, os_id])
+    if fextra is not None:
+        h += struct.pack("<H", len(fextra)) + bytes(fextra)
+    if fname is not None:
+        h += bytes(fname) + b"\x00"
+    if fcomment is not None:
+        h += bytes(fcomment) + b"\x00"
+    if fhcrc:
+        h += struct.pack("<H", zlib.crc32(h) & 0xFFFF)
+    return h + deflate_raw(data, level, strategy, 8, full_flush_at) + struct.pack("<II", zlib.crc32(data) & 0xFFFFFFFF, len(data) & 0xFFFFFFFF)
+
+
+def lz4_block_compress_hc(data, level=9):
+    """LZ4 block via LZ4_compress_HC (levels 3..12)."""
+    lib = _lib("liblz4.so.1")
+    data = bytes(data)
+    if len(data) == 0:
+        return b"\x00"
+    lib.LZ4_compressBound.restype = ctypes.c_int
+    cap = lib.LZ4_compressBound(ctypes.c_int(len(data)))
+    out = ctypes.create_string_buffer(max(cap, 1))
+    lib.LZ4_compress_HC.restype = ctypes.c_int
+    lib.LZ4_compress_HC.argtypes = [ctypes.c_char_p, ctypes.c_char_p, ctypes.c_int, ctypes.c_int, ctypes.c_int]
+    n = lib.LZ4_compress_HC(data, out, len(data), cap, level)
+    if n <= 0:
+        raise CodecError("LZ4_compress_HC failed")
+    return out.raw[:n]
+
+
+def lz4_block_compress_fast(data, acceleration=8):
+    """LZ4 block via LZ4_compress_fast (fewer, shorter matches: long literal runs)."""
+    lib = _lib("liblz4.so.1")
+    data = bytes(data)
+    if len(data) == 0:
+        return b"\x00"
+    lib.LZ4_compressBound.restype = ctypes.c_int
+    cap = lib.LZ4_compressBound(ctypes.c_int(len(data)))
+    out = ctypes.create_string_buffer(max(cap, 1))
+    lib.LZ4_compress_fast.restype = ctypes.c_int
+    lib.LZ4_compress_fast.argtypes = [ctypes.c_char_p, ctypes.c_char_p, ctypes.c_int, ctypes.c_int, ctypes.c_int]
+    n = lib.LZ4_compress_fast(data, out, len(data), cap, acceleration)
+    if n <= 0:
+        raise CodecError("LZ4_compress_fast failed")
+    return out.raw[:n]
+
+
+def lz4_block_literals(data):
+    """An LZ4 block made of one literal run only (token 0xF0 + length extension bytes): legal, what a compressor
+    emits for incompressible input."""
+    data = bytes(data)
+    n = len(data)
+    if n < 15:
+        return bytes([n << 4]) + data
+    ext, rem = b"", n - 15
+    while rem >= 255:
+        ext += b"\xff"
+        rem -= 255
+    return b"\xf0" + ext + bytes([rem]) + data
+
+
+def snappy_literals(data):
+    """A raw snappy block made of literal elements only (length preamble + literals of at most 60 / 2^8 / 2^16 bytes
+    with 0-, 1- and 2-byte length forms): legal, no copies."""
+    data = bytes(data)
+    out = bytearray()
+    v = len(data)
+    while True:
+        b = v & 0x7F
+        v >>= 7
+        out.append(b | (0x80 if v else 0))
+        if not v:
+            break
+    pos, k = 0, 0
+    while pos < len(data):
+        n = min(len(data) - pos, (60, 256, 65536, 7)[k % 4])
+        k += 1
+        if n <= 60:
+            out.append((n - 1) << 2)
+        elif n <= 256:
+            out += bytes([60 << 2, n - 1])
+        else:
+            out += bytes([61 << 2]) + struct.pack("<H", n - 1)
+        out += data[pos:pos + n]
+        pos += n
+    return bytes(out)
+
+
+def _split3(data):
+    n = len(data)
+    return [data[:n // 3], data[n // 3:2 * n // 3], data[2 * n // 3:]]
+
+
+# name -> (function, legal for a Parquet page?)  "legal" = the codec's format document defines this byte stream as an
+# encoding of the content AND a page may hold it.  ZSTD: RFC 8878 - compressed data is one or more frames, the content
+# is the concatenation; skippable frames are skipped.  GZIP: RFC 1952 defines a *file* as a series of members, but
+# Compression.md names zlib as authoritative and zlib's inflate() stops at the end of the first member: whether a page
+# may hold several members is open, so 'members3' is only required not to yield wrong data ("either").
+VARIANTS = {
+    1: {"libsnappy": (snappy_compress, True),
+        "literals_only": (snappy_literals, True)},
+    2: {"level6": (lambda d: gzip_member(d, 6), True),
+        "stored_blocks": (lambda d: gzip_member(d, 0), True),
+        "fixed_huffman": (lambda d: gzip_member(d, 6, zlib.Z_FIXED), True),
+        "huffman_only": (lambda d: gzip_member(d, 6, zlib.Z_HUFFMAN_ONLY), True),
+        "rle_strategy_level9": (lambda d: gzip_member(d, 9, zlib.Z_RLE), True),
+        "level1_full_flush": (lambda d: gzip_member(d, 1, full_flush_at=max(1, len(d) // 2)), True),
+        "fname": (lambda d: gzip_member(d, fname=b"page.bin", mtime=1700000000, os_id=3), True),
+        "fextra_fcomment": (lambda d: gzip_member(d, fextra=b"AP\x02\x00xy", fcomment=b"a comment", xfl=2), True),
+        "all_header_fields": (lambda d: gzip_member(d, fname=b"n", fextra=b"", fcomment=b"", fhcrc=True, ftext=True), True),
+        "fhcrc": (lambda d: gzip_member(d, fhcrc=True), True),
+        "members3": (lambda d: b"".join(gzip_member(x) for x in _split3(bytes(d))), False)},
+    6: {"oneshot_level3": (lambda d: zstd_compress(d, 3), True),
+        "no_content_size": (lambda d: zstd_compress_adv(d, 3, content_size=False), True),
+        "stream_continue": (lambda d: zstd_compress_stream(d, 3, chunk=61), True),
+        "stream_flush_blocks": (lambda d: zstd_compress_stream(d, 1, chunk=40, flush_every=2), True),
+        "checksum": (lambda d: zstd_compress_adv(d, 3, checksum=True), True),
+        "stream_checksum": (lambda d: zstd_compress_stream(d, 5, chunk=1000, checksum=True), True),
+        "level_negative5": (lambda d: zstd_compress_adv(d, -5), True),
+        "level1": (lambda d: zstd_compress_adv(d, 1), True),
+        "level19": (lambda d: zstd_compress_adv(d, 19), True),
+        "window_log10": (lambda d: zstd_compress_adv(d, 3, window_log=10), True),
+        "frames3": (lambda d: b"".join(zstd_compress_adv(x, 3, content_size=(i != 1)) for i, x in enumerate(_split3(bytes(d)))), True),
+        "skippable_first": (lambda d: zstd_skippable_frame() + zstd_compress(d, 3), True)},
+    7: {"default": (lz4_block_compress, True),
+        "hc9": (lambda d: lz4_block_compress_hc(d, 9), True),
+        "hc12": (lambda d: lz4_block_compress_hc(d, 12), True),
+        "hc3": (lambda d: lz4_block_compress_hc(d, 3), True),
+        "fast_accel8": (lambda d: lz4_block_compress_fast(d, 8), True),
+        "literals_only": (lz4_block_literals, True)},
+}
+
+variant_chooser = None      # callable (codec number, data) -> variant name | None
+variant_log = []            # (codec number, variant name) of every choice made through variant_chooser
+
+
+def legal_variants(codec):
+    """Names of the framings of `codec` that a Parquet page may certainly hold."""
+    return [n for n, (f, legal) in VARIANTS.get(codec_id(codec), {}).items() if legal]
+
+
 # ---- front
 
-def compress(codec, data, level=None):
-    """Compress one page body with the codec (name or number)."""
+def compress(codec, data, level=None, variant=None):
+    """Compress one page body with the codec (name or number); variant: a name of VARIANTS[codec]."""
     c = codec_id(codec)
     if c == 0:
         return bytes(data)
+    if variant is None and variant_chooser is not None and level is None:
+        variant = variant_chooser(c, data)
+        if variant is not None:
+            variant_log.append((c, variant))
+    if variant is not None:
+        return VARIANTS[c][variant][0](bytes(data))
     if c == 1:
         return snappy_compress(data)
     if c == 2:
@@ -263,6 +538,14 @@ def _selftest():
             z = compress(c, data)
             assert decompress(c, z, len(data)) == data, c
     assert decompress("LZ4", lz4_block_compress(b"xyz" * 50), 150) == b"xyz" * 50 and lz4_was_raw[0]
+    for data in (b"", b"a", b"abc" * 1000, os.urandom(5000), bytes(70000), os.urandom(300) * 300):
+        for c, vs in VARIANTS.items():
+            for name in vs:
+                z = compress(c, data, variant=name)
+                assert decompress(c, z, len(data)) == data, (c, name, len(data))
+    assert zstd_frame_content_size(compress("ZSTD", b"x" * 100, variant="no_content_size")) == 2 ** 64 - 1
+    assert zstd_frame_content_size(compress("ZSTD", b"x" * 100, variant="stream_continue")) == 2 ** 64 - 1
+    assert zstd_frame_content_size(compress("ZSTD", b"x" * 100, variant="oneshot_level3")) == 100
     try:
         decompress("SNAPPY", b"\x05\x00a\x01", 5)
         raise AssertionError("bad snappy accepted")
